@@ -207,3 +207,34 @@ Theorem v2_index_entry_before_record_refuted :
   exists f s d, v2_Inv f /\ slot_ok s /\ bytes_okl d /\ zlen d < two24 /\ blen f + 4 + zlen d < two40 /\
     ~ v2_WInv (bwrite f (v2_idx s) (le 8 (v2_entry_encode (blen f + 4) (zlen d)))).
 Proof. exact v2_entry_first_refuted. Qed.
+
+(* ---- a v1 store that fails part-way.  st = (.bundlx, .bundle); dat2 = the data file with the complete record
+   appended, hb = the rewritten 60-byte header, idx' = the index with the new entry.  v1_WInv = v1_Inv with the header
+   fields only bounded by the file length.  The four states are every combination the raw write order (record,
+   index entry, header - the index file is closed first) or the program order (record, header, index entry) can
+   leave behind once the record is complete; before that, see v1_torn_append_changes_nothing. *)
+Theorem v1_failed_store_leaves_valid_bundle :
+  forall idx dat s d,
+    v1_WInv (idx, dat) -> slot_ok s -> bytes_okl d -> zlen d < two32 -> blen dat + 4 + zlen d < two40 ->
+    let e := blen dat in
+    let dat2 := bwrite (bwrite dat e (le 4 (zlen d))) (e + 4) d in
+    let idx' := bwrite idx (v1_ioff s) (le 5 e) in
+    exists hb, v1_store1 (idx, dat) s d = Some (idx', bwrite dat2 0 hb) /\
+      forall st, In st [(idx, dat2); (idx, bwrite dat2 0 hb); (idx', dat2); (idx', bwrite dat2 0 hb)] ->
+        v1_WInv st /\
+        forall s', slot_ok s' ->
+          v1_load st s' = v1_load (idx, dat) s' \/
+          (s' = s /\ v1_load st s' = (if zlen d =? 0 then RMissing else RData d)).
+Proof. exact v1_store_prefix_ok. Qed.
+
+Theorem v1_torn_append_changes_nothing :
+  forall idx dat t, v1_WInv (idx, dat) -> bytes_okl t ->
+    v1_WInv (idx, bwrite dat (blen dat) t) /\
+    forall s, slot_ok s -> v1_load (idx, bwrite dat (blen dat) t) s = v1_load (idx, dat) s.
+Proof. exact v1_torn_append_ok. Qed.
+
+Theorem v1_valid_is_weakly_valid : forall st, v1_Inv st -> v1_WInv st.
+Proof. exact v1_Inv_weak. Qed.
+
+Theorem v2_valid_is_weakly_valid : forall f, v2_Inv f -> v2_WInv f.
+Proof. exact v2_Inv_weak. Qed.
